@@ -38,7 +38,8 @@ ASSUMPTIONS = [
     "envelope hazards PATH_REUSE, DIRMOVE_ISOLATED, DIRMOVE_TOMB, XSIDE as for C03/C04",
     "FAULT_IN_EVENT_APPLY: on a path-style side no fault is injected into provider calls made while an event is being applied (open finding KF-20)",
     "FAULT_IN_CHANGE_FILL: faults on calls issued from SyncState.change() are exempt from the reporting clause only (open finding KF-21)",
-    "AFTER_FAULT_THEN_RENAME: an after-effect fault is not placed in a window in which a rename follows it (open finding KF-27)",
+    "AFTER_FAULT_THEN_RENAME: an after-effect fault is not placed in a window in which a rename follows it; part single: histories whose fault window renames something are enumerated with before-effect faults only (open finding KF-27)",
+    "DIRMOVE_TOMB counts deletions of BOTH sides (a delete the engine carried out under a fault may leave a tombstone on the side it was applied to)",
     "CloudSync.authenticate is overridden (documented override point) to reconnect with the stored credentials",
     "a final tree different from the fault-free expectation is allowed (duplicates after an 'effect happened, caller saw failure' fault): the statement asks for convergence and no loss",
 ]
@@ -118,13 +119,18 @@ def budget(tier):
     return plan
 
 
+def _winit(world):
+    world.tomb_both = True
+
+
 def gen(d, tier):
     cfg = draw_cfg(d)
     two = d.bool()
     if not two:
         cfg["origin"] = d.int(0, 1)
     n_ops = (3, 8) if tier == "quick" else (3, 14)
-    acts, world = gen_history(d, cfg, sides=(0, 1) if two else (cfg["origin"],), n_ops=n_ops, with_base=True)
+    acts, world = gen_history(d, cfg, sides=(0, 1) if two else (cfg["origin"],), n_ops=n_ops, with_base=True,
+                              world_init=_winit)
     acts.append(["settle"])      # the last-but-one settle still runs under faults; only the very last one is fault-free
     # insert fault arms after the base settle
     first = next(i for i, a in enumerate(acts) if a[0] == "settle")
@@ -151,7 +157,7 @@ def gen(d, tier):
 def in_domain(trace):
     acts = [a for a in trace["acts"] if a[0] != "fault"]
     sides = (0, 1) if "origin" not in trace["cfg"] else (trace["cfg"]["origin"],)
-    return envelope_ok(dict(trace, acts=acts), sides=sides)
+    return envelope_ok(dict(trace, acts=acts), sides=sides, world_init=_winit)
 
 
 class Run(HistoryRun):
@@ -276,7 +282,7 @@ def gen_single(d, tier):
     if not two:
         cfg["origin"] = d.int(0, 1)
     acts, world = gen_history(d, cfg, sides=(0, 1) if two else (cfg["origin"],), n_ops=(2, 5), with_base=True,
-                              w_settle=0)
+                              w_settle=0, world_init=_winit)
     acts.append(["settle"])
     return {"cfg": cfg, "acts": acts, "meta": {"excluded": dict(world.excluded)}}
 
@@ -300,8 +306,13 @@ def run_single(trace):
         return out
     total = probe.plan.seen_calls // 2 + 1
     fired = nontriv = 0
+    # hazard AFTER_FAULT_THEN_RENAME (open finding KF-27): the fault may land anywhere in the window, so a history
+    # whose fault window renames something is only enumerated with before-effect faults
+    first = next(i for i, a in enumerate(trace["acts"]) if a[0] == "settle")
+    renames = any(a[0] == "u" and a[2] == "rename" for a in trace["acts"][first:])
+    kinds = [kp for kp in SINGLE_KINDS if not (renames and kp[1] == "after")]
     for n in range(total):
-        for kind, phase in SINGLE_KINDS:
+        for kind, phase in kinds:
             r = Run(_with_fault(trace, n, kind, phase))
             o = r.execute()
             if r.plan.fired:
@@ -312,7 +323,7 @@ def run_single(trace):
                 o["detail"] = "[single fault #%d %s %s] %s" % (n, kind, phase, o["detail"])
                 return o
     return ok(nontrivial=nontriv > 0, labels=["single:histories"],
-              counters={"single:fault_runs": total * len(SINGLE_KINDS), "single:faults_fired": fired,
+              counters={"single:fault_runs": total * len(kinds), "single:after_effect_skipped_for_rename": int(renames), "single:faults_fired": fired,
                         "single:nontrivial_fault_runs": nontriv})
 
 
